@@ -998,3 +998,47 @@ Proof.
   destruct (run_o_inv evs (init boot) 0 [] s out (sinv_init boot) Q0 ltac:(lia) H) as [HQ _].
   destruct (HQ Hs) as (Q & _). specialize (Q id). split; [exact Q|]. intros Hn. unfold qb in Q. simpl in Q. rewrite Hn in Q. lia.
 Qed.
+
+(* ---------------------------------------------------------------- C07 export_count over histories *)
+Theorem export_count : forall boot evs s out, work evs < LIM -> run_o (init boot) evs [] = Ok (s, out) -> s_shut s = false ->
+  exp_count (s_exp s) (s_sent s) (s_rel s) /\ slots_free (s_egen s) (s_exp s).
+Proof.
+  intros boot evs s out Hb H Hs.
+  assert (Q0 : qhinv (init boot) []).
+  { intros _. split; [|split].
+    - intros j. unfold cnt, qb. simpl. replace (tget j (@nil (option question))) with (@None question); [lia|].
+      unfold tget, znth. simpl. destruct ((j <? 0) || (0 <=? j)); [reflexivity|destruct (Z.to_nat j); reflexivity].
+    - intros j q Hq. exfalso. unfold tget, znth in Hq. simpl in Hq. destruct ((j <? 0) || (0 <=? j)); [discriminate|destruct (Z.to_nat j); discriminate].
+    - intros h qid Hz. exfalso. unfold znth in Hz. simpl in Hz. destruct ((h <? 0) || (0 <=? h)); [discriminate|destruct (Z.to_nat h); discriminate]. }
+  destruct (run_o_inv evs (init boot) 0 [] s out (sinv_init boot) Q0 ltac:(lia) H) as [_ [W' I]].
+  unfold sinv in I. rewrite Hs in I. destruct I as [(_ & _ & _ & _ & (_ & X2 & X3) & _) _]. simpl in X2, X3. split; assumption.
+Qed.
+
+(* the ghost counter [s_sent] is bumped exactly where a senderHosted descriptor is written *)
+Theorem send_cap_sent : forall x s s1 d oe, send_cap cfg_fixed x s = Ok (s1, d, oe) ->
+  forall e, cget e (s_sent s1) = cget e (s_sent s) + (match d with DSH i => if e =? i then 1 else 0 | _ => 0 end) /\ s_rel s1 = s_rel s.
+Proof.
+  intros x s s1 d oe H e. unfold send_cap in H.
+  assert (FOUND : forall id w y, Ok (set_sent (cadd id 1 (s_sent s)) (set_exp (replace_nth (Z.to_nat id) (Some (y, w + 1)) (s_exp s)) s), DSH id, Some id) = Ok (s1, d, oe) ->
+            cget e (s_sent s1) = cget e (s_sent s) + (match d with DSH i => if e =? i then 1 else 0 | _ => 0 end) /\ s_rel s1 = s_rel s).
+  { intros id w y E. inversion E; subst. simpl. rewrite cget_cadd. split; [destruct (e =? id) eqn:Ee; [replace e with id by lia|]; lia|reflexivity]. }
+  assert (NEW : forall y s0, s_rel s0 = s_rel s ->
+            (do '(id, g) <- gen_next (s_egen s); do t <- tput id (y, 1) (s_exp s);
+             Ok (set_sent (cadd id 1 (s_sent s)) (set_allocs (s_allocs s + 1) (set_egen g (set_exp t s0))), DSH id, Some id)) = Ok (s1, d, oe) ->
+            cget e (s_sent s1) = cget e (s_sent s) + (match d with DSH i => if e =? i then 1 else 0 | _ => 0 end) /\ s_rel s1 = s_rel s).
+  { intros y s0 A HH. destruct (gen_next (s_egen s)) as [[id g']| |]; cbn [bind] in HH; try discriminate.
+    destruct (tput id (y, 1) (s_exp s)) as [t'| |]; cbn [bind] in HH; try discriminate. inversion HH; subst.
+    simpl. rewrite cget_cadd. split; [destruct (e =? id) eqn:Ee; [replace e with id by lia|]; lia|exact A]. }
+  assert (SAME : forall d0, Ok (s, d0, @None Z) = Ok (s1, d, oe) -> match d0 with DSH _ => False | _ => True end ->
+            cget e (s_sent s1) = cget e (s_sent s) + (match d with DSH i => if e =? i then 1 else 0 | _ => 0 end) /\ s_rel s1 = s_rel s).
+  { intros d0 E Hd. inversion E; subst. split; [destruct d; try contradiction; lia|reflexivity]. }
+  destruct x.
+  - apply (SAME DNone H I).
+  - simpl in H. destruct (find_export CErr (s_exp s) 0) as [[id w]|]; [apply (FOUND _ _ _ H)|apply (NEW CErr s eq_refl H)].
+  - simpl in H. destruct (find_export (CLocal j) (s_exp s) 0) as [[id w]|]; [apply (FOUND _ _ _ H)|apply (NEW (CLocal j) (lref 1 j s) eq_refl H)].
+  - destruct (imp_current i g s); [apply (SAME (DRH i) H I)|].
+    destruct (find_export (CImp i g) (s_exp s) 0) as [[id w]|]; [apply (FOUND _ _ _ H)|].
+    apply (NEW (CImp i g) (addref_cap (CImp i g) s)); [|exact H]. simpl. destruct (aget i (s_imp s)); [destruct (_ && _)|]; reflexivity.
+  - simpl in H. destruct (find_export (CEmb e0) (s_exp s) 0) as [[id w]|]; [apply (FOUND _ _ _ H)|].
+    apply (NEW (CEmb e0) (addref_cap (CEmb e0) s)); [|exact H]. simpl. destruct (tget e0 (s_emb s)) as [em|]; [destruct (0 <? e_refs em)|]; reflexivity.
+Qed.
